@@ -34,7 +34,7 @@ meta = {
     "needs_to_manifest": needs[:3000],
     "confirmed": {"tests_with_patch": "125 passed", "demo_clean_tree_exit": 0, "demo_with_patch_exit": int(m_demo.group(1)),
                   "how": "tools/mutant.sh: scratch git worktree of /repo HEAD, PYTHONPATH=<wt>/src /venv/bin/python -m pytest / demo.py"},
-    "check_run": {"cmd": f"VERIF_TIER={tier} ./check {check} (patch applied to /repo with git apply, reverted with git checkout -- .)",
+    "check_run": {"cmd": f"VERIF_REPO=<scratch worktree with the patch applied> VERIF_TIER={tier} ./check {check}",
                   "exit": int(m_check.group(1)) if m_check else None, "detected": bool(m_check and m_check.group(1) == "1"),
                   "rejecting_clauses": clauses},
     "date": time.strftime("%Y-%m-%d"),
